@@ -8,8 +8,12 @@ StripSp(s) == IF s # <<>> /\ Last(s) = 32 THEN StripSp(Front(s)) ELSE s
 StripIfOpaque(u) == IF u.opaque /\ u.frag = None /\ u.query = None THEN [u EXCEPT !.opath = StripSp(@)] ELSE u
 
 SetProtocolO(o, u, v, idna) == ParseOvO(Append(v, 58), u, "schemeStart", idna, o).u
-SetUsername(u, v) == IF CannotHaveUPP(u) THEN u ELSE [u EXCEPT !.user = EncStr(SetUserinfo, Ingest(v))]
-SetPassword(u, v) == IF CannotHaveUPP(u) THEN u ELSE [u EXCEPT !.pass = EncStr(SetUserinfo, Ingest(v))]
+(* WithPercentEncodeSinglePercentSign also governs the credential setters: a '%' that starts no valid escape is written %25 *)
+EncStrO(o, S, s) == Flat([i \in 1..Len(s) |-> IF o.singlePct /\ s[i] = 37 /\ ~IsPctTriple(s, i) THEN PctCp(37) ELSE EncCp(S, s[i])])
+SetUsernameO(o, u, v) == IF CannotHaveUPP(u) THEN u ELSE [u EXCEPT !.user = EncStrO(o, SetUserinfo, Ingest(v))]
+SetPasswordO(o, u, v) == IF CannotHaveUPP(u) THEN u ELSE [u EXCEPT !.pass = EncStrO(o, SetUserinfo, Ingest(v))]
+SetUsername(u, v) == SetUsernameO(DefaultOpts, u, v)
+SetPassword(u, v) == SetPasswordO(DefaultOpts, u, v)
 SetHostO(o, u, v, idna) == IF u.opaque THEN u ELSE ParseOvO(v, u, "host", idna, o).u
 SetHostnameO(o, u, v, idna) == IF u.opaque THEN u ELSE ParseOvO(v, u, "hostname", idna, o).u
 SetPortO(o, u, v) == IF CannotHaveUPP(u) THEN u ELSE IF v = <<>> THEN [u EXCEPT !.port = None] ELSE ParseOvO(v, u, "port", None, o).u
@@ -21,8 +25,8 @@ SetHashO(o, u, v) == IF v = <<>> THEN StripIfOpaque([u EXCEPT !.frag = None])
 SetterNames == {"protocol", "username", "password", "host", "hostname", "port", "pathname", "search", "hash"}
 ApplyO(o, u, op, v, idna) ==
   CASE op = "protocol" -> SetProtocolO(o, u, v, idna)
-    [] op = "username" -> SetUsername(u, v)
-    [] op = "password" -> SetPassword(u, v)
+    [] op = "username" -> SetUsernameO(o, u, v)
+    [] op = "password" -> SetPasswordO(o, u, v)
     [] op = "host" -> SetHostO(o, u, v, idna)
     [] op = "hostname" -> SetHostnameO(o, u, v, idna)
     [] op = "port" -> SetPortO(o, u, v)
